@@ -51,7 +51,7 @@ func runOne(k *bnet.Keys, c cfg, devs []vrt.Dev, labels bool) *explore.Exec {
 	var net *bnet.Net
 	var setupErr error
 	start := time.Unix(common.TimeOfRound(k.Period, k.Genesis, c.Head), 0).Add(100 * time.Millisecond)
-	s := vrt.Run(vrt.Options{Devs: devs, MaxSteps: 300000, Labels: labels, Watchdog: 20 * time.Second, Start: start, Until: start.Add(3*k.Period + 2*time.Second)}, func() {
+	s := vrt.Run(vrt.Options{Devs: devs, MaxSteps: 300000, Labels: labels, Watchdog: 60 * time.Second, Start: start, Until: start.Add(3*k.Period + 2*time.Second)}, func() {
 		ctx := context.Background()
 		net = bnet.NewNet(k)
 		nd, err := net.AddNode(ctx, k, 0, "memdb", 0)
